@@ -99,7 +99,20 @@ func newAlgoSUT(r *rng, algo, wrap string) *algoSUT {
 			c.Ceil, c.Inc, s.smoothing = 1000, 30, 1.0
 			v = limit.NewDefaultVegasLimitWithLimit(c.Name, c.Initial, nil, s.reg)
 		default:
-			v = limit.NewVegasLimitWithRegistry(c.Name, c.Initial, nil, c.Ceil, reqSmooth, nil, nil, nil, nil, nil, mult, nil, s.reg)
+			// the step functions may be supplied by the caller, one or both: here they are the defaults spelled out, so the
+			// contract is the same whichever of them the constructor has to fill in
+			lf := functions.Log10RootFloatFunction(0)
+			var inc, dec func(float64) float64
+			switch r.intn(4) {
+			case 1:
+				inc = func(l float64) float64 { return l + lf(l) }
+			case 2:
+				dec = func(l float64) float64 { return l - lf(l) }
+			case 3:
+				inc = func(l float64) float64 { return l + lf(l) }
+				dec = func(l float64) float64 { return l - lf(l) }
+			}
+			v = limit.NewVegasLimitWithRegistry(c.Name, c.Initial, nil, c.Ceil, reqSmooth, nil, nil, nil, inc, dec, mult, nil, s.reg)
 		}
 		s.vegas, s.inner = v, v
 	case "gradient":
@@ -706,6 +719,10 @@ func TestLimitTwin(t *testing.T) {
 			}
 		}
 		cands := []int64{b, b + 1, b + b/8, b + b/4, b + b/2, 2 * b, 3 * b, 4 * b, 8 * b, 20 * b}
+		if k%4 == 1 {
+			// RTTs of seconds, minutes and decades (a completion time far ahead of any clock) at the top of the range
+			cands = []int64{b, b + 1, b + b/4, 2 * b, 8 * b, 20 * b, 30e9, 120e9, 1 << 61, 1 << 62}
+		}
 		w.write(J{"ev": "Reset", "trace": k, "cfg": ref.cfg, "obs": J{"est": ref.cfg.Initial, "listeners": 0}})
 		// mostly saturated and drop free: an app-limited or dropped final sample gives the same estimate whatever its RTT
 		last := smp{0, []int{est, est, est + 5, est + 1, est / 2, 0}[r.intn(6)], r.chance(1, 10), 0}
